@@ -52,7 +52,15 @@ func (g *Gen) litOfType(t string, depth int) *Expr {
 		used := map[string]bool{}
 		for i := 0; i < n; i++ {
 			k := g.ident(used)
-			if g.chance(0.5) {
+			if g.P.Odd && g.chance(0.12) && !used["2xl"] {
+				// looks like a name, is none: cannot be an attribute step
+				k = g.pick([]string{"2xl", "-x", "9", "a-b"})
+				if used[k] {
+					continue
+				}
+				used[k] = true
+				e.Keys = append(e.Keys, &Expr{K: "str", S: k})
+			} else if g.chance(0.5) {
 				e.Keys = append(e.Keys, &Expr{K: "str", S: k})
 			} else {
 				e.Keys = append(e.Keys, &Expr{K: "kw", S: k})
@@ -221,6 +229,9 @@ func (g *Gen) exprFor(c *ConsSpec, depth int) *Expr {
 				e.Keys = append(e.Keys, &Expr{K: "str", S: g.pick([]string{"a\"b", "back\\slash", "tab\there", "sp ace", "dollar${x}", "日本", ""})})
 			case c.AllowInterp && g.chance(0.2) && !g.P.JSONTwin:
 				e.Keys = append(e.Keys, &Expr{K: "tmpl", A: []*Expr{{K: "str", S: "k-"}, g.ref()}})
+			case g.P.Odd && g.chance(0.15):
+				// looks like a name, is none: cannot be an attribute step
+				e.Keys = append(e.Keys, &Expr{K: "str", S: g.pick([]string{"2xl", "-x", "9", "a-b"})})
 			case g.chance(0.6):
 				e.Keys = append(e.Keys, &Expr{K: "str", S: k})
 			default:
@@ -412,8 +423,13 @@ func (g *Gen) items(b *BodySpec, depth int, pathPrefix string) []*Item {
 	if g.chance(g.P.Violations) {
 		out = append(out, &Item{Attr: &AttrItem{Name: "bogus_attr", Expr: g.anyExpr("string", 1)}})
 	}
+	// many small blocks of several types, interleaved (a long rule list)
+	many := g.P.ManyBlocks && depth >= 1 && depth <= 2 && len(b.Blocks) >= 2 && g.chance(0.5)
 	for _, bl := range b.Blocks {
 		n := g.n(3)
+		if many && bl.Max == 0 {
+			n = 5 + g.n(9)
+		}
 		if bl.Min > 0 && !g.chance(g.P.Violations) {
 			n = int(bl.Min) + g.n(2)
 		}
@@ -446,7 +462,7 @@ func (g *Gen) items(b *BodySpec, depth int, pathPrefix string) []*Item {
 		out = append(out, &Item{Block: &BlockItem{Type: "bogus_block", Labels: []string{"l"}, Body: []*Item{{Attr: &AttrItem{Name: "x", Expr: g.anyExpr("string", 1)}}}}})
 	}
 	// shuffle source order a little: attributes and blocks may interleave
-	if g.chance(0.3) {
+	if many || g.chance(0.3) {
 		g.R.Shuffle(len(out), func(i, j int) { out[i], out[j] = out[j], out[i] })
 	}
 	return out
@@ -556,6 +572,26 @@ func (g *Gen) blockItem(bl *BlockSpec, depth int, pathPrefix string) *Item {
 			}
 		}
 	}
+	// a still-undecided value for an attribute the block's address takes a step
+	// from: a conditional that evaluates to a null of type string
+	if bl.Addr != nil && g.P.HalfTyped > 0 && !g.P.JSONTwin {
+		for _, st := range bl.Addr.Steps {
+			if st.K != "attrvalue" || !g.chance(0.15) {
+				continue
+			}
+			e := &Expr{K: "raw", S: g.pick([]string{"true ? null : \"a\"", "false ? \"a\" : null"})}
+			set := false
+			for _, it := range bi.Body {
+				if it.Attr != nil && it.Attr.Name == st.Name {
+					it.Attr.Expr = e
+					set = true
+				}
+			}
+			if !set {
+				bi.Body = append(bi.Body, &Item{Attr: &AttrItem{Name: st.Name, Expr: e}})
+			}
+		}
+	}
 	// address of this declaration
 	if bl.Addr != nil {
 		var parts []string
@@ -620,6 +656,8 @@ func (g *Gen) refText() string {
 		s = g.addrs[g.n(len(g.addrs))]
 	case g.chance(0.3):
 		s = g.pick([]string{"count.index", "each.key", "each.value", "self.name", "self.id"})
+	case len(g.builtins) > 0 && g.chance(0.3):
+		return g.builtins[g.n(len(g.builtins))]
 	default:
 		s = g.pick([]string{"var.missing", "local.nope", "prov.one", "prov.two", "x"})
 	}
@@ -649,6 +687,10 @@ func (g *Gen) World() *World {
 		w.Lenses = []string{"ok", g.pick([]string{"ok", "error", "empty"})}
 	}
 	g.funcs = g.functions()
+	if g.P.Builtins {
+		w.Builtins = []BuiltinSpec{{Addr: "path.module", Type: "string"}, {Addr: "terraform.workspace", Type: "string", Scope: g.pick(append([]string{""}, g.scopes...))}}
+		g.builtins = []string{"path.module", "terraform.workspace"}
+	}
 	var shared *BodySpec
 	for pi := 0; pi < g.P.Paths; pi++ {
 		p := &PathSpec{Dir: fmt.Sprintf("/ws/mod%d", pi), Lang: "simlang", Funcs: g.funcs}
@@ -696,6 +738,24 @@ func (g *Gen) World() *World {
 		for fi := 0; fi < nf; fi++ {
 			name := g.fileName(pi, fi)
 			f := &FileSpec{Name: name, Items: g.items(p.Schema, 0, p.Dir)}
+			if g.P.Typing && p.Schema != nil {
+				// one or two names in the middle of being typed, between the items
+				var names []string
+				for _, a := range p.Schema.Attrs {
+					names = append(names, a.Name)
+				}
+				for _, b := range p.Schema.Blocks {
+					names = append(names, b.Type)
+				}
+				for k := 0; k < 1+g.n(2) && len(names) > 0; k++ {
+					nm := names[g.n(len(names))]
+					if len(nm) > 1 {
+						nm = nm[:1+g.n(len(nm)-1)]
+					}
+					at := g.n(len(f.Items) + 1)
+					f.Items = append(f.Items[:at:at], append([]*Item{{Bare: nm}}, f.Items[at:]...)...)
+				}
+			}
 			if g.P.Layout {
 				f.Layout = g.R.Uint64() | 1
 			}
